@@ -25,6 +25,15 @@ import (
 
 const Root = "/verif"
 
+// outRoot: where evidence and replay files go (VERIF_OUT_DIR redirects them for mutation sweeps that must not
+// touch the committed evidence; registered commands never set it)
+func outRoot() string {
+	if d := os.Getenv("VERIF_OUT_DIR"); d != "" {
+		return d
+	}
+	return Root
+}
+
 type violation struct {
 	Key    string `json:"key"`   // stable class key (what KNOWN_FINDINGS lists)
 	Group  string `json:"group"` // replay unit
@@ -750,7 +759,7 @@ func (r *Run) Finish() {
 			continue
 		}
 		nviol++
-		dir := filepath.Join(Root, "replay", r.ID)
+		dir := filepath.Join(outRoot(), "replay", r.ID)
 		os.MkdirAll(dir, 0o755)
 		path := filepath.Join(dir, sanitize(key)+".json")
 		m := map[string]any{"property": r.ID, "key": v.Key, "group": v.Group, "case": v.CaseID, "desc": v.Desc, "count": v.Count, "tier": r.Tier, "seed": r.seed, "detail": v.Detail}
@@ -830,8 +839,8 @@ func (r *Run) writeEvidence(wall float64, nviol int) {
 	if err != nil {
 		r.Harness("evidence marshal: " + err.Error())
 	}
-	os.MkdirAll(filepath.Join(Root, "evidence"), 0o755)
-	if err := os.WriteFile(filepath.Join(Root, "evidence", r.ID+".json"), b, 0o644); err != nil {
+	os.MkdirAll(filepath.Join(outRoot(), "evidence"), 0o755)
+	if err := os.WriteFile(filepath.Join(outRoot(), "evidence", r.ID+".json"), b, 0o644); err != nil {
 		r.Harness("evidence write: " + err.Error())
 	}
 }
